@@ -38,7 +38,11 @@ def cases(tier, seed):
     if tier == "thorough":
         defs += space.family_bind("quick", with_sensors=True)
         from fv.props.c03 import with_sensors
-        defs += [with_sensors(d) for d in space.family_ops("quick") if len(d["state"]) == 2][::3]
+        # (programs built on functions with poles or a bounded domain are left to the point-wise checks: the histories explored
+        # here move the state freely and would leave the domain, which is outside "all well-conditioned inputs")
+        restricted = ("asin", "acos", "atanh", "acot", "sec", "csc", "cot", "atan2")
+        defs += [with_sensors(d) for d in space.family_ops("quick") if len(d["state"]) == 2
+                 and not d["name"].split("-")[1].startswith(restricted)][::3]
     for i, d in enumerate(defs):
         for cse in (True, False):
             for k in ((None, 5.0, 0.5) if tier == "quick" else (None, 5.0, 0.5, 2.718281828459045)):
